@@ -62,6 +62,7 @@ struct MappedSubj {
     std::vector<K> keys, pool;
     static constexpr unsigned kinds = 4;
     int fd_base = -1;
+    bool reopen = false;
     bool build(TapeReader &t, unsigned size_hint, std::string &desc, bool execute, const RunCtx &ctx) {
         KeyMeta meta;
         GenOpts o;
@@ -71,12 +72,17 @@ struct MappedSubj {
         o.dup_heavy = true;
         o.max_n = 20000;
         keys = gen_keys<K>(t, o, meta);
-        desc = std::string("MappedPGMIndex<") + type_name<K>() + ",4,4> " + describe_keys(keys, meta);
+        reopen = t.chance(1, 2);
+        desc = std::string("MappedPGMIndex<") + type_name<K>() + ",4,4> " + (reopen ? "(reopened from its file) " : "(range-built) ") + describe_keys(keys, meta);
         if (!execute) return true;
         pool = gen_queries<K>(keys, meta, 4, false, false);
         fd_base = open("/dev/null", O_RDONLY);
         if (fd_base >= 0) close(fd_base);
         obj.reset(new Index(keys.begin(), keys.end(), ctx.workdir + "/conc.pgm"));
+        if (reopen) { // the readers then share a container loaded from an existing index file
+            obj.reset();
+            obj.reset(new Index(ctx.workdir + "/conc.pgm"));
+        }
         return true;
     }
     ~MappedSubj() {
@@ -245,9 +251,10 @@ CaseResult run_conc(const RunCtx &ctx, TapeReader &t, unsigned size_hint, S &sub
         for (auto &q: s) h = mix(h, subj.answer(q));
         return h;
     };
-    // alone
+    // The concurrent phase runs FIRST, on an object no query has touched yet (a lazily initialised member in a const query
+    // path would otherwise be warmed up by the reference run and the race on its first use would stay invisible);
+    // the sequential reference digests are computed afterwards on the same object.
     std::vector<uint64_t> alone(nthreads), together(nthreads, 0);
-    for (unsigned i = 0; i < nthreads; ++i) alone[i] = run_script(scripts[i]);
     // together, behind one barrier
     std::atomic<unsigned> ready{0};
     std::atomic<bool> go{false};
@@ -261,6 +268,7 @@ CaseResult run_conc(const RunCtx &ctx, TapeReader &t, unsigned size_hint, S &sub
     while (ready.load() < nthreads) std::this_thread::yield();
     go.store(true, std::memory_order_release);
     for (auto &x: th) x.join();
+    for (unsigned i = 0; i < nthreads; ++i) alone[i] = run_script(scripts[i]);
     for (unsigned i = 0; i < nthreads; ++i)
         if (alone[i] != together[i]) {
             res.fail("thread " + std::to_string(i) + " of " + std::to_string(nthreads) + " got different answers when run concurrently (digest " + std::to_string(together[i]) +
@@ -324,8 +332,9 @@ static const char *rule(const std::string &) {
     return "cases: one object of {PGMIndex, CompressedPGMIndex, BucketingPGMIndex, EliasFanoPGMIndex, MappedPGMIndex, MultidimensionalPGMIndex, DynamicPGMIndex "
            "after a generated update history} built single-threaded from generated data, then 2..16 std::threads started behind one barrier, each running a "
            "generated script of 20..420 queries drawn from one shared pool (search; lower/upper_bound, count, contains; contains and box ranges; find, count, "
-           "lower_bound, range, iteration, empty); 1/3 of the cases run the same script in every thread. oracle: ThreadSanitizer reports nothing "
-           "(halt_on_error, non-zero exit) and every thread's result digest equals the digest of the same script run alone beforehand. non-trivial: thread 0 "
+           "lower_bound, range, iteration, empty); 1/3 of the cases run the same script in every thread. the concurrent phase runs first, on an object no query has touched (half of the "
+           "MappedPGMIndex cases are reopened from their file). oracle: ThreadSanitizer reports nothing (halt_on_error, non-zero exit) and every "
+           "thread's result digest equals the digest of the same script run alone afterwards. non-trivial: thread 0 "
            "and some other thread issued an identical query (same entry point, same element of the pool), measured per case; distinct by canonical tape hash";
 }
 
